@@ -123,11 +123,19 @@ class RunDomain(DefaultDomain):
             return st.set("cleanups.known", "nonempty" if truth else "empty")
         return st
 
+    def subscript(self, base, idx, st, fr):
+        if base == ("excinfo-user",):
+            return ("user-exc-value",) if idx == ("const", 1) else TOP
+        return None
+
     def raised_value(self, stmt, value, st, fr):
         if isinstance(stmt.exc, ast.Name) and st.get(fr.local(stmt.exc.id)) == ("recorded",):
             return RERAISE
         if value == ("recorded",):
             return RERAISE
+        if value == ("user-exc-value",):
+            # the exception user code raised is raised again by the runner itself: it leaves as what it is
+            return USER_EXC
         if isinstance(stmt.exc, ast.Call) and isinstance(stmt.exc.func, ast.Name) and fr.name == "_raise_force_fail_error":
             return USER_EXC
         return ("framework", "raise " + norm(stmt.exc)[:40])
@@ -141,6 +149,8 @@ class RunDomain(DefaultDomain):
         if isinstance(func, ast.Attribute) and dotted(func.value) in ("result", "self.result", "actual_result"):
             m = func.attr
             return self._with_args(interp, call, st, fr, lambda s: self._result_event(m, call, s))
+        if d == "sys.exc_info" and st.get(fr.local("<handling>"), None) == USER_EXC:
+            return [val(("excinfo-user",), st)]
         if d in ("getattr", "isinstance", "sys.exc_info", "hasattr", "len", "id", "repr", "str"):
             return self._with_args(interp, call, st, fr, lambda s: [val(("bool",) if d in ("isinstance", "hasattr") else TOP, s)])
         if isinstance(func, ast.Name) and (func.id.endswith(("Error", "Exception")) or func.id in ("object", "set", "list", "dict", "tuple", "frozenset")):
